@@ -99,15 +99,25 @@ func genMalformed(c *sim.Ctx, st *sim.Stream, depthMax int) *malformedCase {
 			case ref.MSize:
 				old := getU32(d[m.Off:])
 				var nv uint32
-				switch st.Pick(4, 2, 3, 1) {
+				switch st.Pick(4, 2, 3, 1, 3) {
 				case 0:
 					nv = []uint32{0x80000000, 0xffffffff, 0x7fffffff, 0, 1, 0x7f, 0x80, 0xff, 0x100, 0x10000, 0x1000000, 0x8000000, 0xfffffffe, 0x80000001}[st.Choose(14)]
 				case 1:
 					nv = old + 1
 				case 2:
 					nv = old - 1
-				default:
+				case 3:
 					nv = uint32(st.Uint64())
+				default:
+					// counts whose product with an element width wraps around 2^32 or 2^31 and
+					// lands on a small number (arithmetic done in the wrong width)
+					w := []uint64{2, 3, 4, 5, 8, 9, 10, 12, 16}[st.Choose(9)]
+					base := []uint64{1 << 32, 1 << 31, 1 << 33}[st.Pick(3, 2, 1)]
+					r := uint64(st.Choose(64)) * uint64(1+st.Choose(2)*7)
+					nv = uint32((base + r + w - 1) / w)
+					if st.Chance(1, 2) {
+						nv = uint32((base + uint64(old)*w) / w) // wraps exactly onto the real payload size
+					}
 				}
 				mc.desc += fmt.Sprintf(" size@%d:%#x->%#x", m.Off, old, nv)
 				putU32(d[m.Off:], nv)
